@@ -253,11 +253,22 @@ def register_dataclass_type_with_jax_tree_util(data_class):
         constructable from keyword arguments corresponding to the members exposed
         in instance.__dict__.
     """
-    def flatten(d):
-        keys, values = zip(*sorted(d.__dict__.items()))
-        return values, keys
+    def is_static(value):
+        # Python ints / strings (e.g. dimensions) and callables are metadata, not array data: they must not
+        # become traced pytree children, because shapes and control flow depend on them.
+        return (isinstance(value, (int, str)) and not isinstance(value, bool)) or callable(value)
 
-    unflatten = lambda keys, values: data_class(**dict(zip(keys, values)))
+    def flatten(d):
+        items = sorted(d.__dict__.items())
+        dynamic = [(k, v) for k, v in items if not is_static(v)]
+        static = tuple((k, v) for k, v in items if is_static(v))
+        keys = tuple(k for k, _ in dynamic)
+        values = tuple(v for _, v in dynamic)
+        return values, (keys, static)
+
+    def unflatten(aux, values):
+        keys, static = aux
+        return data_class(**dict(zip(keys, values)), **dict(static))
     try:
         jax.tree_util.register_pytree_node(
             nodetype=data_class, flatten_func=flatten, unflatten_func=unflatten
